@@ -273,12 +273,22 @@ def job(args):
         gkeys = [e[0] for e in es]
         jumps = [(r[0], abs(r[1] - (rows[i - 1][1] if i else init[0]))) for i, r in enumerate(rows)]
 
+        by_name = {}
+        for s in g.subcomponents:
+            by_name.setdefault(str(s.get('TZNAME')), set()).add(s.name)
+        shared = prov == 'pytz' and any(len(k) > 1 for k in by_name.values())
+        starts_in_dst = prov == 'zoneinfo' and not table_at(init, rows, keys, first_i)[1]
+        # candidate classes in priority order; 'tzgen-excursion?' is decided by the model's chainOK in the main process
+        others = ['tzgen-excursion?'] + (['tzname-shared-by-standard-and-daylight'] if shared else [])
+
         def classify(t):
             j = bisect.bisect_right(keys, t)
             for idx in (j - 1, j):
                 if 0 <= idx < len(jumps) and jumps[idx][1] and abs(t - jumps[idx][0]) <= jumps[idx][1]:
                     return 'tzgen-onset-shift'
-            return 'tzgen-excursion?'
+            if starts_in_dst and t - first_i <= 26 * 3600:
+                return 'tzgen-window-starts-in-dst'
+            return '|'.join(others)
 
         seen = set()
         for t in ins:
@@ -299,7 +309,7 @@ def job(args):
             back = g.to_tz(tzp, lookup_tzid=False)
         except Exception as e:  # noqa: BLE001
             back = None
-            res['viol'].append(('convert-raises', inp, f'to_tz raised {type(e).__name__}: {e}', 'tzgen-excursion?'))
+            res['viol'].append(('convert-raises', inp, f'to_tz raised {type(e).__name__}: {e}', '|'.join(others)))
         if back is not None:
             conv = set()
             pick = inside if len(inside) <= 40 else rng.sample(inside, 40)
@@ -339,7 +349,10 @@ def job(args):
                 if same is not True:
                     a, b = component_view(g), (component_view(g3) if same is False else '')
                     shape = lambda v: [x.split(':')[:4] for x in v.split(';')]
-                    cls = 'tzgen-onset-shift' if same is False and shape(a) == shape(b) and has_tr else 'tzgen-excursion?'
+                    if same is False and shape(a) == shape(b) and has_tr and prov == 'pytz':
+                        cls = 'tzgen-onset-shift'
+                    else:
+                        cls = '|'.join(others + (['tzgen-window-starts-in-dst'] if starts_in_dst else []))
                     res['viol'].append(('regenerate-differs', inp,
                                         f'{tzid} ({prov}): generating again from the converted zone '
                                         + ('gives other DTSTART/RDATE values' if cls == 'tzgen-onset-shift' else f'differs ({same})'), cls))
@@ -430,9 +443,11 @@ def oracle(ctx):
                 ctx.notes.append(f'{detail} ({inp})')
                 ctx.violation(kind, inp, detail, None)
                 continue
-            if cls == 'tzgen-excursion?':
-                # recorded per zone; only zones outside the scope of gen_faithful_partial may fall here
-                cls = 'tzgen-excursion' if chain != '1' else None
+            if cls is not None and cls.startswith('tzgen-excursion?'):
+                # 'tzgen-excursion' is recorded per zone; only zones outside the scope of gen_faithful_partial
+                # (the model's chainOK is false) may fall there; then the other candidate classes, in order
+                rest = cls.split('|')[1:]
+                cls = 'tzgen-excursion' if chain != '1' else (rest[0] if rest else None)
                 if cls is None:
                     detail += ' [the model decides that no short excursion or name-only change exists: not the recorded finding]'
             if cls == 'EXC':
